@@ -216,16 +216,30 @@ class Sys:
 
     def m_try_for_each(self, e, st, fr, t, args):
         it, f = args
+        ref = None
+        if isinstance(it, VRef):
+            ref = peel(e, st, it)
+            it = _load(e, st, ref)
         if not (isinstance(it, VAgg) and it.name == 'VecIter'):
             return NotImplemented
-        for x in it.extra['items'][it.extra['idx']:]:
+        items = it.extra['items']
+        i = it.extra['idx']
+        res = ok(UNIT)
+        while i < len(items):
+            x = items[i]
+            i += 1
             r = self.call_closure_sync(st, f, [x])
             d = e.concrete_int(st, e.discriminant_of(st, r))
             if d is None:
                 raise Unsupported("try_for_each closure returned a symbolic result")
             if d == 1:
-                return r          # first Err ends the iteration
-        return ok(UNIT)
+                res = r           # first Err ends the iteration
+                break
+        if ref is not None:
+            ex = dict(it.extra)
+            ex['idx'] = i
+            _store(e, st, ref, VAgg(name=it.name, fields=it.fields, extra=ex))
+        return res
 
     def m_into_sender(self, e, st, fr, t, args):
         v = args[0]
